@@ -276,6 +276,13 @@ pub fn depth_bound(total_unstable: u64, theta: u64) -> Vec<u64> {
 /// forks below. The anchor must advance exactly when longest >= bound and
 /// longest - runner_up >= bound (judged only where "runner-up" is unambiguous).
 fn escape_family(rep: &mut Report, net: Network, theta: u32, fork_len: usize, max_len: usize, contested_lead: Option<usize>) {
+    escape_family_weighted(rep, net, theta, fork_len, 1, max_len, contested_lead)
+}
+
+/// The same family with fork blocks of difficulty `fork_diff` (main-branch blocks weigh 1): a
+/// short heavy branch against a long light one. The depth rule is about the child on the
+/// served (heaviest) chain: its depth against the bound and against the other child's.
+pub fn escape_family_weighted(rep: &mut Report, net: Network, theta: u32, fork_len: usize, fork_diff: u128, max_len: usize, contested_lead: Option<usize>) {
     use crate::factory;
     let mut out = Out::default();
     let mut w = World::new(WorldCfg::on(net, theta));
@@ -309,7 +316,7 @@ fn escape_family(rep: &mut Report, net: Network, theta: u32, fork_len: usize, ma
     let mut tip_f = heavy;
     for i in 0..fork_len {
         let b = mk(&w, &tip_f, 10_000 + i as u64);
-        assert!(deliver(&mut w, &b, 1));
+        assert!(deliver(&mut w, &b, fork_diff));
         tip_f = *w.ids.last().unwrap();
     }
     let mut tip = heavy;
@@ -329,7 +336,7 @@ fn escape_family(rep: &mut Report, net: Network, theta: u32, fork_len: usize, ma
         for is_main in steps {
             let (parent, salt) = if is_main { (tip, 20_000 + len as u64) } else { (tip_f, 50_000 + len as u64) };
             let b = mk(&w, &parent, salt);
-            if !deliver(&mut w, &b, 1) {
+            if !deliver(&mut w, &b, if is_main { 1 } else { fork_diff }) {
                 out.violation("escape-block-rejected", None, json!({"len": len, "main": is_main}));
                 break 'outer;
             }
@@ -343,12 +350,19 @@ fn escape_family(rep: &mut Report, net: Network, theta: u32, fork_len: usize, ma
             let main_now = if is_main { len } else { len - 1 };
             let total = w.tree_hashes().len() as u64;
             let bounds = depth_bound(total, theta as u64);
-            let longest = main_now.max(fork_now) as u64;
-            let runner = main_now.min(fork_now) as u64;
+            // the candidate is the child on the heaviest chain (first received on a tie: the
+            // fork when it exists before the main branch starts)
+            let w_main = main_now as u128;
+            let w_fork = fork_now as u128 * fork_diff;
+            let fork_is_candidate = fork_now > 0 && (w_fork > w_main || (w_fork == w_main && fork_len > 0));
+            let (cand, other) = if fork_is_candidate { (fork_now as u64, main_now as u64) } else { (main_now as u64, fork_now as u64) };
             // mainnet has no depth escape (and the difficulty rule cannot fire here)
             let escapes = net != Network::Mainnet;
-            let must = escapes && bounds.iter().all(|b| longest >= *b && longest - runner >= *b);
-            let may = escapes && bounds.iter().any(|b| longest >= *b && longest - runner >= *b);
+            let must = escapes && bounds.iter().all(|b| cand >= *b && cand.saturating_sub(other) >= *b);
+            let may = escapes && bounds.iter().any(|b| cand >= *b && cand.saturating_sub(other) >= *b);
+            if fork_is_candidate && (main_now as u64) > (fork_now as u64) {
+                out.count("escape_judgements_with_the_heaviest_branch_shorter_than_the_longest");
+            }
             let pre_anchor = w.anchor();
             let r = w.ingest(None);
             out.states += 1;
@@ -357,7 +371,16 @@ fn escape_family(rep: &mut Report, net: Network, theta: u32, fork_len: usize, ma
                 break 'outer;
             }
             let moved = w.anchor() != pre_anchor;
-            let detail = json!({"net": net.to_string(), "theta": theta, "fork_len": fork_now, "main_len": main_now,
+            // whatever happened, the served tip is the tip of the heaviest chain of the
+            // accepted blocks above the (reference) anchor
+            if !moved {
+                let best = w.refm.best_chain(&pre_anchor);
+                let served = w.info().ok().map(|i| i.block_hash);
+                if served != best.last().map(|h| h.to_vec()) {
+                    out.violation("served-tip-is-not-the-heaviest-chain", None, json!({"main_len": main_now, "fork_len": fork_now, "fork_difficulty": fork_diff.to_string()}));
+                }
+            }
+            let detail = json!({"net": net.to_string(), "theta": theta, "fork_len": fork_now, "fork_difficulty": fork_diff.to_string(), "main_len": main_now,
                 "contested_lead": contested_lead, "unstable_blocks": total, "bound": bounds});
             if moved && !may {
                 out.violation("escape-early", None, detail.clone());
@@ -376,7 +399,7 @@ fn escape_family(rep: &mut Report, net: Network, theta: u32, fork_len: usize, ma
                 out.count("escape_firings");
                 // the new anchor is the first block of the longer branch; the other is gone
                 let tree: HashSet<H32> = w.tree_hashes().into_iter().collect();
-                let loser = if main_now >= fork_now { tip_f } else { tip };
+                let loser = if fork_is_candidate { tip } else { tip_f };
                 if fork_now > 0 && tree.contains(&loser) {
                     out.violation("escape-kept-losing-fork", None, json!({"len": len}));
                 }
@@ -498,6 +521,17 @@ pub fn run(tier: &str) -> i32 {
         vec![(Network::Regtest, 2, 1, 1000), (Network::Regtest, 2, 2, 1000), (Network::Regtest, 2, 3, 1000), (Network::Testnet, 1, 1, 1000),
              (Network::Testnet, 144, 143, 1300), (Network::Testnet, 144, 144, 1300), (Network::Regtest, 144, 143, 1300), (Network::Regtest, 600, 498, 1000), (Network::Mainnet, 2, 1, 800)]
     };
+    // a short heavy branch (served) against a long light one: the depth rule must not move
+    // the anchor onto the longer, lighter branch
+    let storms: Vec<(Network, u32, usize, u128, usize)> = if quick {
+        vec![(Network::Regtest, 2, 2, 290, 520), (Network::Testnet, 144, 3, 1000, 620)]
+    } else {
+        vec![(Network::Regtest, 2, 2, 290, 520), (Network::Testnet, 144, 3, 1000, 620), (Network::Regtest, 600, 2, 290, 520), (Network::Testnet, 1, 1, 5000, 700), (Network::Regtest, 144, 5, 100, 450)]
+    };
+    for (net, theta, f, fd, max_len) in &storms {
+        escape_family_weighted(&mut rep, *net, *theta, *f, *fd, *max_len, None);
+    }
+    rep.floor("escape_judgements_with_the_heaviest_branch_shorter_than_the_longest", 300);
     for (net, theta, lead, max_len) in &contested {
         escape_family(&mut rep, *net, *theta, 0, *max_len, Some(*lead));
     }
